@@ -146,9 +146,7 @@ def run(ctx):
                 ctx.evaluations += 1
                 ctx.distinct.add(repr(("model_rv", unit_cls, ps["poly_trend"], n_off)))
                 if dev > 1e-7:
-                    key = "model_rv-differs"
-                    if not canonical:
-                        key = "mcmc-model-ignores-prior-units"
+                    key = "model_rv-differs" if canonical else "model_rv-differs-in-custom-units"
                     ctx.violation(key, "model_rv differs from K z(t) + trend (+offsets) by %.3g of its scale at P=%.4g d e=%.3f "
                                   "(K=%.4g %s)" % (dev, P_d, e_, x[0], pb.du), dict(desc, point=q, P_day=P_d, e=e_))
                     break
